@@ -268,10 +268,28 @@ fn cli_domain(bytes: &[u8]) -> bool {
 }
 
 pub fn check_cli(c: &CliCase) -> Result<bool, Violation> {
-    let cj = c.to_json();
     if !cli_domain(&c.formula) {
         return Ok(false);
     }
+    run_cli(c)
+}
+
+/// Cheap formulas over many variables (conjunctions, disjunctions, alternating cubes, one counting
+/// list, one quantifier): the domain rule of `cli_domain` (<= 10 names) is about cost, these are cheap.
+pub fn wide_cli_formula(n: usize, shape: usize) -> String {
+    let v: Vec<String> = (0..n).map(|i| format!("x{}", i)).collect();
+    match shape % 6 {
+        0 => v.join(" & "),
+        1 => v.join(" | "),
+        2 => v.iter().enumerate().map(|(i, x)| if i % 2 == 0 { x.clone() } else { format!("-{}", x) }).collect::<Vec<_>>().join(" & "),
+        3 => format!("({}) & (y0 ^ y1)", v.join(" & ")),
+        4 => format!("(exists x0, x{} # {}) | -z", n - 1, v.join(" & ")),
+        _ => format!("([{}] >= 1) & ({})", v[..8.min(n)].join(", "), v.join(" & ")),
+    }
+}
+
+pub fn run_cli(c: &CliCase) -> Result<bool, Violation> {
+    let cj = c.to_json();
     let scratch = cli::Scratch::new();
     let mut args: Vec<String> = Vec::new();
     let mut stdin: Option<&[u8]> = None;
@@ -734,6 +752,54 @@ pub fn run(ctx: &mut Ctx) -> Result<(), Violation> {
         Ok(())
     });
     ctx.stage("cli-spawns", false, r)?;
+
+    // formulas over more variables than a machine word has bits, every output option
+    let mut wjobs: Vec<CliCase> = Vec::new();
+    let wsizes: Vec<usize> = ctx.tier.pick(vec![33, 65, 70, 129, 257], vec![31, 33, 63, 64, 65, 66, 70, 127, 128, 129, 130, 255, 256, 257, 300, 520]);
+    const WOPTS: [&[&str]; 12] = [
+        &["-t"],
+        &["-t", "-f", "t"],
+        &["-t", "-f", "False"],
+        &["-v"],
+        &["-t", "-v"],
+        &["-m", "-t"],
+        &["-m", "-v"],
+        &["-c", "t", "-t"],
+        &["-c", "f", "-v"],
+        &["-r", "-t", "-f", "t"],
+        &["-d", "{DIR}/out.dot", "-p", "{DIR}/tree.dot"],
+        &["-b", "2", "-v"],
+    ];
+    for (i, n) in wsizes.iter().enumerate() {
+        for shape in 0..6 {
+            for (j, o) in WOPTS.iter().enumerate() {
+                if ctx.tier == Tier::Quick && (i + shape + j) % 3 != 0 {
+                    continue;
+                }
+                wjobs.push(CliCase {
+                    formula: wide_cli_formula(*n, shape).into_bytes(),
+                    channel: ["arg", "file", "stdin"][(i + j) % 3].to_string(),
+                    ordering: None,
+                    opts: o.iter().map(|s| s.to_string()).collect(),
+                });
+            }
+        }
+    }
+    let r = par_jobs(ctx, &wjobs, |c, st| {
+        st.eval();
+        let ran = run_cli(c)?;
+        if ran {
+            st.class("cli-wide:ran");
+            if st.nontrivial(fnv(c.to_json().to_string().as_bytes())) && c.formula.len() < 400 {
+                st.nt_sample(|| c.to_json());
+            }
+        } else {
+            st.class("cli-wide:timeout(inconclusive)");
+            st.discarded += 1;
+        }
+        Ok(())
+    });
+    ctx.stage("cli-wide-formulas-every-output-option", true, r)?;
     if ctx.tier == Tier::Thorough {
         let seeds: Vec<Vec<u8>> = files.iter().filter(|b| b.len() < 4000).cloned().collect();
         let r = fuzz_stage(ctx, "nopanic", 3_000_000, 400, &seeds, replay);
@@ -745,7 +811,7 @@ pub fn run(ctx: &mut Ctx) -> Result<(), Violation> {
 pub fn replay(case: &Value) -> Check {
     match case["kind"].as_str() {
         Some("cli") => match CliCase::from_json(case) {
-            Some(c) => check_cli(&c).map(|_| ()),
+            Some(c) => run_cli(&c).map(|_| ()),
             None => Err(Violation::new("unreadable replay case", case.clone())),
         },
         _ => match (case_bytes(case), ordering_from(&case["ordering"])) {
